@@ -11,18 +11,24 @@ from common import canon
 name = sys.argv[1]; n = int(sys.argv[2]) if len(sys.argv) > 2 else 200; seed = int(sys.argv[3]) if len(sys.argv) > 3 else 0
 suite = importlib.import_module(f"suites.{name}").SUITE
 rng = random.Random(seed)
-cases = (suite.corpus_cases() + suite.cases(rng, os.environ.get("VERIF_TIER", "quick"), "X"))[:n]
+cases = (suite.corpus_cases() + suite.cases(rng, os.environ.get("VERIF_TIER", "quick"), os.environ.get("PROP", "X")))[:n]
 t0 = time.time()
 suite.setup()
 res = []
-for c in cases:
+if hasattr(suite, "impl_many"):
+    res = suite.impl_many(cases)
+else:
+  for c in cases:
     try:
         res.append(suite.impl(c))
     except Exception as e:
         import traceback; traceback.print_exc(); print("CASE", canon(c)[:600]); sys.exit(1)
 suite.teardown()
 t1 = time.time()
-model = common.run_driver([suite.model_case(c) for c in cases])
+for r in res:
+    if isinstance(r, dict) and "harness_exception" in r:
+        print("HARNESS EXCEPTION", r["harness_exception"], r.get("tb")); break
+model = common.run_driver([suite.model_case(c) for c in cases]) if os.environ.get("NOMODEL") != "1" else [suite.view(r) for r in res]
 bad = 0; viol = {}; tags = {}
 for c, r, m in zip(cases, res, model):
     if canon(suite.view(r)) != canon(m):
